@@ -312,6 +312,27 @@ fn run_job(job: &Value) -> Value {
         out.insert("fmt_f32".into(), Value::Array(rows));
     }
 
+    if let Some(reqs) = job.get("f32_arith").and_then(|v| v.as_array()) {
+        // each request: [op, a, b]; the operands are rounded to f32 first
+        let rows: Vec<Value> = reqs
+            .iter()
+            .map(|r| {
+                let op = r[0].as_str().unwrap_or("");
+                let a = f32_of(&r[1], 0.0);
+                let b = f32_of(&r[2], 0.0);
+                let v = match op {
+                    "add" => a + b,
+                    "mul" => a * b,
+                    "div" => a / b,
+                    "round3" => (a * 1000.0).round() / 1000.0,
+                    _ => f32::NAN,
+                };
+                json!([op, num(a), num(b), num(v)])
+            })
+            .collect();
+        out.insert("f32_arith".into(), Value::Array(rows));
+    }
+
     // ---- components
     let comps: Option<Components> = match job.get("comps") {
         None => None,
